@@ -323,7 +323,7 @@ def fit(
     if component_index not in {0, 1}:
         raise ValueError("Index should be either 0 or 1")
 
-    _data = copy(data)
+    _data = Measurements(data=list(data.data))
 
     if include_zero:
         unique_temperatures = set([m.t for m in data])
